@@ -10,6 +10,9 @@ import (
 	"strings"
 
 	"github.com/nyaruka/gocommon/uuids"
+	"github.com/nyaruka/goflow/excellent"
+	"github.com/nyaruka/goflow/excellent/refactor"
+	"github.com/nyaruka/goflow/excellent/types"
 	"github.com/nyaruka/goflow/flows"
 	"github.com/nyaruka/goflow/flows/definition"
 	"github.com/nyaruka/goflow/flows/definition/legacy"
@@ -38,7 +41,11 @@ var migCfg = &migrations.Config{BaseMediaURL: "https://media.example.com/base/"}
 // guarded calls
 // ---------------------------------------------------------------------------------------------------------
 
+// Entry is the entry point *kind* of the crash signature: migrate (MigrateToLatest, MigrateToVersion,
+// legacy.MigrateDefinition, legacy.IsPossibleDefinition), read (definition.ReadFlow on a migrated definition),
+// marshal, evaluate. Call names the concrete function.
 type panicInfo struct {
+	Call  string
 	Entry string
 	Rec   any
 	Stack string
@@ -46,10 +53,10 @@ type panicInfo struct {
 
 func (p *panicInfo) signature() string { return fw.PanicSignature(p.Entry, p.Rec, p.Stack) }
 
-func guard(entry string, f func()) (pi *panicInfo) {
+func guard(entry, call string, f func()) (pi *panicInfo) {
 	defer func() {
 		if rec := recover(); rec != nil {
-			pi = &panicInfo{Entry: entry, Rec: rec, Stack: string(debug.Stack())}
+			pi = &panicInfo{Entry: entry, Call: call, Rec: rec, Stack: string(debug.Stack())}
 		}
 	}()
 	f()
@@ -57,22 +64,22 @@ func guard(entry string, f func()) (pi *panicInfo) {
 }
 
 func migrateLatest(data []byte) (out []byte, err error, pi *panicInfo) {
-	pi = guard("MigrateToLatest", func() { out, err = migrations.MigrateToLatest(data, migCfg) })
+	pi = guard("migrate", "migrations.MigrateToLatest", func() { out, err = migrations.MigrateToLatest(data, migCfg) })
 	return
 }
 
 func readFlow(data []byte) (f flows.Flow, err error, pi *panicInfo) {
-	pi = guard("ReadFlow", func() { f, err = definition.ReadFlow(data, migCfg) })
+	pi = guard("read", "definition.ReadFlow", func() { f, err = definition.ReadFlow(data, migCfg) })
 	return
 }
 
 func legacyMigrate(data []byte) (out []byte, err error, pi *panicInfo) {
-	pi = guard("legacy.MigrateDefinition", func() { out, err = legacy.MigrateDefinition(data, migCfg.BaseMediaURL) })
+	pi = guard("migrate", "legacy.MigrateDefinition", func() { out, err = legacy.MigrateDefinition(data, migCfg.BaseMediaURL) })
 	return
 }
 
 func marshalFlow(f flows.Flow) (out []byte, err error, pi *panicInfo) {
-	pi = guard("MarshalFlow", func() { out, err = json.Marshal(f) })
+	pi = guard("marshal", "json.Marshal(flow)", func() { out, err = json.Marshal(f) })
 	return
 }
 
@@ -84,8 +91,8 @@ func marshalFlow(f flows.Flow) (out []byte, err error, pi *panicInfo) {
 // the values come straight from goflow's own registry.
 type versionStep struct {
 	Name    string
-	Migrate func(data []byte) ([]byte, error)        // MigrateToVersion(data, v, cfg)
-	Stamped func(h *migrations.Header13) bool         // h.SpecVersion == v
+	Migrate func(data []byte) ([]byte, error) // MigrateToVersion(data, v, cfg)
+	Stamped func(h *migrations.Header13) bool // h.SpecVersion == v
 }
 
 func mapKeys[K comparable, V any](m map[K]V) []K {
@@ -113,7 +120,7 @@ func versionSteps() []versionStep {
 }
 
 func migrateToVersion(data []byte, v versionStep) (out []byte, err error, pi *panicInfo) {
-	pi = guard("MigrateToVersion", func() { out, err = v.Migrate(data) })
+	pi = guard("migrate", "migrations.MigrateToVersion("+v.Name+")", func() { out, err = v.Migrate(data) })
 	return
 }
 
@@ -281,9 +288,17 @@ type validInput struct {
 	UUIDSeed int64
 }
 
+// class is the coarse source class used in signatures (the exact version is in the witness)
+func (in *validInput) class() string {
+	if in.Legacy {
+		return "legacy"
+	}
+	return "13.x"
+}
+
 type checker struct {
-	res  *fw.Result
-	ec   *evalCtx
+	res   *fw.Result
+	ec    *evalCtx
 	steps []versionStep
 }
 
@@ -294,7 +309,7 @@ func (ck *checker) violate(sig, what string, w map[string]any) {
 
 func (ck *checker) panicked(in *validInput, pi *panicInfo) {
 	ck.res.Count("panics", 1)
-	ck.violate(pi.signature(), fmt.Sprintf("%s panicked on a valid %s definition: %v", pi.Entry, in.Version, clip(fmt.Sprint(pi.Rec), 200)),
+	ck.violate(pi.signature(), fmt.Sprintf("%s panicked on a valid %s definition: %v", pi.Call, in.Version, clip(fmt.Sprint(pi.Rec), 200)),
 		map[string]any{"input": in.Label, "definition": string(in.Data), "panic": fmt.Sprint(pi.Rec), "stack": fw.TrimStack(pi.Stack)})
 }
 
@@ -302,6 +317,7 @@ func (ck *checker) panicked(in *validInput, pi *panicInfo) {
 func (ck *checker) checkValid(in *validInput) []byte {
 	res := ck.res
 	V := in.Version
+	C := in.class()
 	wit := func(extra map[string]any) map[string]any {
 		m := map[string]any{"input": in.Label, "version": V, "definition": string(in.Data)}
 		for k, v := range extra {
@@ -321,7 +337,7 @@ func (ck *checker) checkValid(in *validInput) []byte {
 	if err != nil {
 		if in.Known {
 			res.Count("clause.migrates.checked", 1)
-			ck.violate("valid|migrate-error|"+V+"|"+errClass(err), fmt.Sprintf("MigrateToLatest rejects a valid %s definition: %s", V, clip(err.Error(), 300)), wit(map[string]any{"error": err.Error()}))
+			ck.violate("valid|migrate-error|"+C+"|"+errClass(err), fmt.Sprintf("MigrateToLatest rejects a valid %s definition: %s", V, clip(err.Error(), 300)), wit(map[string]any{"error": err.Error()}))
 		} else {
 			res.Count("seeds.rejected_by_migration", 1)
 		}
@@ -338,7 +354,7 @@ func (ck *checker) checkValid(in *validInput) []byte {
 		if in.Known {
 			res.Count("clause.migrates.checked", 1)
 			res.Count("clause.loads.checked", 1)
-			ck.violate("valid|not-loadable|"+V+"|"+errClass(err), fmt.Sprintf("the migrated form of a valid %s definition does not load: %s", V, clip(err.Error(), 300)), wit(map[string]any{"error": err.Error(), "migrated": string(out)}))
+			ck.violate("valid|not-loadable|"+C+"|"+errClass(err), fmt.Sprintf("the migrated form of a valid %s definition does not load: %s", V, clip(err.Error(), 300)), wit(map[string]any{"error": err.Error(), "migrated": string(out)}))
 		} else {
 			res.Count("seeds.rejected_by_readflow", 1)
 		}
@@ -362,7 +378,7 @@ func (ck *checker) checkValid(in *validInput) []byte {
 	if json.Unmarshal(out, hdr) == nil && hdr.SpecVersion != nil {
 		res.Count("clause.spec_version.checked", 1)
 		if !hdr.SpecVersion.Equal(definition.CurrentSpecVersion) && hdr.SpecVersion.LessThan(definition.CurrentSpecVersion) {
-			ck.violate("valid|spec-version-not-current|"+V, fmt.Sprintf("migrated definition is stamped %s, not %s", hdr.SpecVersion, definition.CurrentSpecVersion), wit(map[string]any{"stamped": hdr.SpecVersion.String()}))
+			ck.violate("valid|spec-version-not-current|"+C, fmt.Sprintf("migrated definition is stamped %s, not %s", hdr.SpecVersion, definition.CurrentSpecVersion), wit(map[string]any{"stamped": hdr.SpecVersion.String()}))
 		}
 	}
 
@@ -377,13 +393,13 @@ func (ck *checker) checkValid(in *validInput) []byte {
 		// 3. flow UUID
 		res.Count("clause.flow_uuid.checked", 1)
 		if got.FlowUUID != want.FlowUUID || gotRaw.FlowUUID != want.FlowUUID {
-			ck.violate("valid|flow-uuid-changed|"+V, "flow UUID changed by migration", wit(map[string]any{"expected": want.FlowUUID, "observed": got.FlowUUID}))
+			ck.violate("valid|flow-uuid-changed|"+C, "flow UUID changed by migration", wit(map[string]any{"expected": want.FlowUUID, "observed": got.FlowUUID}))
 		}
 		// 4. node UUIDs and order
 		res.Count("clause.node_order.checked", 1)
 		res.Count("nodes_compared", int64(len(want.Nodes)))
 		if fmt.Sprint(got.nodeUUIDs()) != fmt.Sprint(want.nodeUUIDs()) {
-			ck.violate("valid|nodes-changed|"+V, "node UUIDs / order changed by migration", wit(map[string]any{"expected": want.nodeUUIDs(), "observed": got.nodeUUIDs()}))
+			ck.violate("valid|nodes-changed|"+C, "node UUIDs / order changed by migration", wit(map[string]any{"expected": want.nodeUUIDs(), "observed": got.nodeUUIDs()}))
 		} else {
 			// 5. exits and destinations
 			res.Count("clause.exits.checked", 1)
@@ -402,7 +418,7 @@ func (ck *checker) checkValid(in *validInput) []byte {
 							kind = "destination"
 						}
 					}
-					ck.violate("valid|exits-changed|"+kind+"|"+V, "exits / destinations of a node changed by migration", wit(map[string]any{"node": want.Nodes[i].UUID, "expected": want.Nodes[i].Exits, "observed": got.Nodes[i].Exits}))
+					ck.violate("valid|exits-changed|"+kind+"|"+C, "exits / destinations of a node changed by migration", wit(map[string]any{"node": want.Nodes[i].UUID, "expected": want.Nodes[i].Exits, "observed": got.Nodes[i].Exits}))
 					break
 				}
 			}
@@ -417,9 +433,9 @@ func (ck *checker) checkValid(in *validInput) []byte {
 	case pi != nil:
 		ck.panicked(in, pi)
 	case err != nil:
-		ck.violate("valid|second-migration-error|"+V, "migrating the migrated definition again fails: "+clip(err.Error(), 200), wit(map[string]any{"migrated": string(out), "error": err.Error()}))
+		ck.violate("valid|second-migration-error|"+C, "migrating the migrated definition again fails: "+clip(err.Error(), 200), wit(map[string]any{"migrated": string(out), "error": err.Error()}))
 	case !bytes.Equal(out, out2):
-		ck.violate("valid|not-idempotent|"+V, "Migrate(Migrate(x)) differs from Migrate(x)", wit(map[string]any{"first": string(out), "second": string(out2)}))
+		ck.violate("valid|not-idempotent|"+C, "Migrate(Migrate(x)) differs from Migrate(x)", wit(map[string]any{"first": string(out), "second": string(out2)}))
 	}
 
 	// 7. stepwise == one go (same UUID source)
@@ -438,11 +454,12 @@ func (ck *checker) checkValid(in *validInput) []byte {
 
 func (ck *checker) checkStepwise(in *validInput, oneGo []byte, wit func(map[string]any) map[string]any) {
 	res := ck.res
-	V := in.Version
+	V := in.class()
 	resetUUIDs(in.UUIDSeed)
 	data := in.Data
 	steps := 0
 	var trail []string
+	var inter [][]byte // result after each registered target
 	if in.Legacy {
 		fw.SetDetail("legacy.MigrateDefinition " + in.Label)
 		o, err, pi := legacyMigrate(data)
@@ -482,6 +499,7 @@ func (ck *checker) checkStepwise(in *validInput, oneGo []byte, wit func(map[stri
 			}
 		}
 		data = o
+		inter = append(inter, o)
 	}
 	res.Count("clause.stepwise.checked", 1)
 	res.Count("stepwise_steps", int64(steps))
@@ -490,6 +508,29 @@ func (ck *checker) checkStepwise(in *validInput, oneGo []byte, wit func(map[stri
 	}
 	if !bytes.Equal(data, oneGo) {
 		ck.violate("valid|stepwise-differs|"+V, "stepwise MigrateToVersion chain differs from one-go migration (same UUID source)", wit(map[string]any{"steps": trail, "stepwise": string(data), "one_go": string(oneGo)}))
+	}
+
+	// one direct jump to an intermediate target must give what the chain had at that point
+	if len(inter) == len(ck.steps) && len(inter) > 0 {
+		k := int(in.UUIDSeed % int64(len(ck.steps)))
+		if k < 0 {
+			k = -k
+		}
+		resetUUIDs(in.UUIDSeed)
+		fw.SetDetail("MigrateToVersion(direct) " + ck.steps[k].Name + " " + in.Label)
+		o, err, pi := migrateToVersion(in.Data, ck.steps[k])
+		switch {
+		case pi != nil:
+			ck.panicked(in, pi)
+		case err != nil:
+			res.Count("clause.direct_jump.checked", 1)
+			ck.violate("valid|direct-jump-error|"+V, fmt.Sprintf("MigrateToVersion(%s) fails although the stepwise chain passed that version: %s", ck.steps[k].Name, clip(err.Error(), 200)), wit(map[string]any{"error": err.Error()}))
+		default:
+			res.Count("clause.direct_jump.checked", 1)
+			if !bytes.Equal(o, inter[k]) {
+				ck.violate("valid|direct-jump-differs|"+V, fmt.Sprintf("MigrateToVersion(%s) in one go differs from the stepwise chain stopped at that version", ck.steps[k].Name), wit(map[string]any{"target": ck.steps[k].Name, "direct": string(o), "stepwise": string(inter[k])}))
+			}
+		}
 	}
 }
 
@@ -595,17 +636,17 @@ func (ck *checker) checkLeafs(in *validInput, outDoc map[string]any, wit func(ma
 		if !ok || !isStr {
 			if isLoc {
 				res.Count("clause.localization.checked", 1)
-				ck.violate("valid|translation-lost|"+pathShape(lf.Path)+"|"+in.Version, "a translation present before migration is gone afterwards", wit(map[string]any{"path": pathString(lf.Path)}))
+				ck.violate("valid|translation-lost|"+templatePosition(lf.Path), "a translation present before migration is gone afterwards", wit(map[string]any{"path": pathString(lf.Path)}))
 			} else {
 				res.Count("clause.template_kept.checked", 1)
-				ck.violate("valid|template-lost|"+pathShape(lf.Path)+"|"+in.Version, "a template present before migration is gone afterwards", wit(map[string]any{"path": pathString(lf.Path)}))
+				ck.violate("valid|template-lost|"+templatePosition(lf.Path), "a template present before migration is gone afterwards", wit(map[string]any{"path": pathString(lf.Path)}))
 			}
 			continue
 		}
 		if !lf.IsT {
 			res.Count("clause.localization.checked", 1)
 			if got != lf.Text {
-				ck.violate("valid|translation-changed|"+pathShape(lf.Path)+"|"+in.Version, "a plain translation was changed by migration", wit(map[string]any{"path": pathString(lf.Path), "expected": lf.Text, "observed": got}))
+				ck.violate("valid|translation-changed|"+templatePosition(lf.Path), "a plain translation was changed by migration", wit(map[string]any{"path": pathString(lf.Path), "expected": lf.Text, "observed": got}))
 			}
 			continue
 		}
@@ -632,7 +673,7 @@ func (ck *checker) compareTemplate(in *validInput, src string, srcMinor int, got
 	}
 	var v1, v2 string
 	var e1, e2 bool
-	if pi := guard("Evaluator.Template", func() {
+	if pi := guard("evaluate", "Evaluator.Template", func() {
 		v1, e1 = ck.ec.value(srcCtx, src)
 		v2, e2 = ck.ec.value(ck.ec.new, got)
 	}); pi != nil {
@@ -652,13 +693,44 @@ func (ck *checker) compareTemplate(in *validInput, src string, srcMinor int, got
 		if len(path) > 0 && path[0] == "localization" {
 			where = "translation"
 		}
-		kind := "value-differs"
+		sig := ""
+		cause := ""
 		if src == got && t.Webhook {
-			kind = "not-rewritten"
+			sig = "valid|template-not-rewritten|" + where + "|" + templatePosition(path)
+			cause = "the migration left the old-style reference as it was"
+		} else {
+			cls, why := ck.classifyMismatch(src, srcCtx, v2, e2)
+			cause = why
+			sig = "valid|template-value-differs|" + cls
+			if cls == "rename" {
+				sig += "|" + where + "|" + templatePosition(path)
+			}
 		}
-		ck.violate("valid|template-"+kind+"|"+where+"|"+templatePosition(path)+"|"+in.Version, "a template evaluates differently after migration",
-			wit(map[string]any{"path": pathString(path), "before": src, "after": got, "value_before": v1, "error_before": e1, "value_after": v2, "error_after": e2}))
+		ck.violate(sig, "a template evaluates differently after migration: "+cause,
+			wit(map[string]any{"path": pathString(path), "before": src, "after": got, "value_before": v1, "error_before": e1, "value_after": v2, "error_after": e2, "cause": cause}))
 	}
+}
+
+var trailingZerosRe = regexp.MustCompile(`([0-9]+\.[0-9]*?)0+([^0-9.]|$)`)
+
+// classifyMismatch is a small repair experiment on the source template (in its own context): does printing the
+// parsed expressions back - without renaming anything - already change the value, and if so, is it the
+// normalisation of number literals (1.50 -> 1.5) that does it?
+func (ck *checker) classifyMismatch(src string, srcCtx *types.XObject, vAfter string, eAfter bool) (string, string) {
+	v0, e0 := ck.ec.value(srcCtx, src)
+	reprinted, _ := refactor.Template(src, []string{"webhook"}, func(excellent.Expression) bool { return true })
+	v1, e1 := ck.ec.value(srcCtx, reprinted)
+	if v0 == v1 && e0 == e1 {
+		return "rename", "printing the expressions back unchanged keeps the value, the renamed reference changes it"
+	}
+	norm := trailingZerosRe.ReplaceAllStringFunc(src, func(m string) string {
+		sm := trailingZerosRe.FindStringSubmatch(m)
+		return strings.TrimSuffix(sm[1], ".") + sm[2]
+	})
+	if v2, e2 := ck.ec.value(srcCtx, norm); norm != src && v2 == vAfter && e2 == eAfter {
+		return "reprint|number-literal-rescaled", "printing a number literal drops its trailing zeros (1.50 -> 1.5) and the operator's result depends on the operand's scale"
+	}
+	return "reprint|other", "printing the parsed expressions back (no renaming) already changes the value"
 }
 
 // templatePosition names the template position of a path without indices / uuids
@@ -693,16 +765,16 @@ func (ck *checker) checkTemplating(in *validInput, outDoc map[string]any, wit fu
 		}
 		res.Count("clause.templating.checked", 1)
 		if _, has := am["templating"]; has {
-			ck.violate("valid|templating-left|"+in.Version, "send_msg still has a templating object after migration", wit(map[string]any{"action": am}))
+			ck.violate("valid|templating-left", "send_msg still has a templating object after migration", wit(map[string]any{"action": am}))
 			continue
 		}
 		ref, _ := am["template"].(map[string]any)
 		if ref == nil || str(ref["uuid"]) != str(et.Ref["uuid"]) || str(ref["name"]) != str(et.Ref["name"]) {
-			ck.violate("valid|template-ref-changed|"+in.Version, "send_msg template reference changed by migration", wit(map[string]any{"expected": et.Ref, "observed": am["template"]}))
+			ck.violate("valid|template-ref-changed", "send_msg template reference changed by migration", wit(map[string]any{"expected": et.Ref, "observed": am["template"]}))
 		}
 		vars, _ := am["template_variables"].([]any)
 		if len(vars) != len(et.Vars) {
-			ck.violate("valid|template-variables-count|"+in.Version, "number of template variables changed by migration", wit(map[string]any{"expected": len(et.Vars), "observed": am["template_variables"], "action_uuid": et.ActionUUID}))
+			ck.violate("valid|template-variables-count", "number of template variables changed by migration", wit(map[string]any{"expected": len(et.Vars), "observed": am["template_variables"], "action_uuid": et.ActionUUID}))
 		} else {
 			for i, v := range vars {
 				res.Count("clause.templating.variables", 1)
@@ -723,13 +795,13 @@ func (ck *checker) checkTemplating(in *validInput, outDoc map[string]any, wit fu
 			switch {
 			case want && !has:
 				res.Count("clause.templating.translations", 1)
-				ck.violate("valid|template-variables-translation-lost|"+in.Version, "translated template variables are gone after migration", wit(map[string]any{"lang": lang, "action_uuid": et.ActionUUID}))
+				ck.violate("valid|template-variables-translation-lost", "translated template variables are gone after migration", wit(map[string]any{"lang": lang, "action_uuid": et.ActionUUID}))
 			case !want && has:
 				res.Count("templating.translation_without_source", 1) // harmless, not demanded by the statement
 			case want && has:
 				res.Count("clause.templating.translations", 1)
 				if len(got) != len(exp) {
-					ck.violate("valid|template-variables-translation-count|"+in.Version, "translated template variables do not line up with the components' params", wit(map[string]any{"lang": lang, "action_uuid": et.ActionUUID, "expected": len(exp), "observed": got}))
+					ck.violate("valid|template-variables-translation-count", "translated template variables do not line up with the components' params", wit(map[string]any{"lang": lang, "action_uuid": et.ActionUUID, "expected": len(exp), "observed": got}))
 					continue
 				}
 				for i := range got {
